@@ -646,6 +646,16 @@ func (s *spec) Step(w *engine.World, ctx sdk.Context, mm engine.Model, ev string
 		} else {
 			st.Outcome = "propose:" + kind + ":" + res.ErrName()
 		}
+		if !res.OK() {
+			switch {
+			case busy:
+				st.Saw("proposal-while-in-progress:rejected")
+			case kind == "past":
+				st.Saw("proposal-exec-time-past:rejected")
+			case kind == "late":
+				st.Saw("proposal-exec-time-beyond-max:rejected")
+			}
+		}
 		if res.OK() {
 			if busy {
 				st.Violate("second-transition-accepted-while-one-in-progress:proposal", "MsgTransitionGroup accepted while a transition to group %d (%s) exists", m.Tr.Incoming, statusName(m.Tr.Status))
@@ -682,6 +692,13 @@ func (s *spec) Step(w *engine.World, ctx sdk.Context, mm engine.Model, ev string
 			st.Outcome = "force:unfinished-group:" + res.ErrName()
 		default:
 			st.Outcome = "force:" + kind + ":" + res.ErrName()
+		}
+		if !res.OK() {
+			if busy {
+				st.Saw("forced-while-in-progress:rejected")
+			} else if gst != tsstypes.GROUP_STATUS_ACTIVE {
+				st.Saw("forced-to-unfinished-group:rejected")
+			}
 		}
 		if res.OK() {
 			if busy {
